@@ -314,6 +314,14 @@ class Engine:
                 st.assume(self.eval_clause(st, cl))
         finally:
             self.spec_mode -= 1
+        for cl in contract.extra.get("assume", []):
+            # definitional instances / background facts assumed for this function only (listed in the evidence)
+            self.spec_mode += 1
+            try:
+                st.assume(self.eval_clause(st, cl))
+            finally:
+                self.spec_mode -= 1
+            self.assumptions.add("assumed in %s: %s" % (contract.qualname, cl if isinstance(cl, str) else getattr(cl, "__name__", "clause")))
         for cls in self.reg.classes:
             st.alloc["pre:" + cls] = self.alloc_bound(st, cls)
         pre.pc = list(st.pc)
@@ -551,6 +559,10 @@ class Engine:
             obj = self.eval(target.value, st)
             if isinstance(obj, VModel):
                 obj.sym_setattr(self, st, target.attr, v)
+            elif isinstance(obj, VTuple) and target.attr in self.PAIR_FIELDS and len(obj.items) == 2:
+                items = list(obj.items)
+                items[self.PAIR_FIELDS[target.attr]] = v
+                self.assign(target.value, VTuple(items), st, True)      # struct field store: write the updated pair back
             else:
                 self.store_field(st, obj, target.attr, v)
         elif isinstance(target, ast.Subscript):
@@ -926,10 +938,14 @@ class Engine:
             return ("specfn", node.id)
         raise Unsupported("unbound name %s (line %s)" % (node.id, getattr(node, "lineno", "?")))
 
+    PAIR_FIELDS = {"first": 0, "second": 1}
+
     def expr_Attribute(self, node, st):
         obj = self.eval(node.value, st)
         if isinstance(obj, VModel):
             return obj.sym_getattr(self, st, node.attr)
+        if isinstance(obj, VTuple) and node.attr in self.PAIR_FIELDS and len(obj.items) == 2:
+            return obj.items[self.PAIR_FIELDS[node.attr]]      # std::pair
         return self.load_field(st, obj, node.attr)
 
     def expr_Tuple(self, node, st):
@@ -1423,6 +1439,17 @@ class Engine:
         finally:
             self.spec_mode -= 1
         ord_ = self.call_ordinal(node)
+        if cc is self.contract and cc.extra.get("decreases") is not None:
+            # recursive call: the measure strictly decreases and is bounded below (termination)
+            self.spec_mode += 1
+            try:
+                m_call = to_z3(self.eval(ast.parse(cc.extra["decreases"], mode="eval").body, call_st))
+                entry = State()
+                entry.env, entry.heap, entry.alloc, entry.pc = dict(st.old.env), dict(st.old.heap), dict(st.old.alloc), st.pc
+                m_entry = to_z3(self.eval(ast.parse(cc.extra["decreases"], mode="eval").body, entry))
+            finally:
+                self.spec_mode -= 1
+            self.oblige(st, "decreases", z3.And(m_call >= 0, m_call < m_entry), "%s@%d" % (cc.qualname.split(".")[-1], ord_))
         for exc, cond in cc.raises.items():
             self.spec_mode += 1
             try:
